@@ -164,7 +164,7 @@ func loadPrelude(dir string) (*Prelude, error) {
 					for _, ctor := range fm.list[2].list[k].list {
 						if !ctor.isL {
 							p.Sigs[ctor.atom] = &FnSig{Name: ctor.atom, Ret: dn}
-							p.Sigs["is-"+ctor.atom] = &FnSig{Name: "(_ is " + ctor.atom + ")", Args: []string{dn}, Ret: "Bool"}
+							p.Sigs["is"+ctor.atom] = &FnSig{Name: "(_ is " + ctor.atom + ")", Args: []string{dn}, Ret: "Bool"}
 							continue
 						}
 						cn := ctor.list[0].atom
@@ -174,7 +174,7 @@ func loadPrelude(dir string) (*Prelude, error) {
 							p.Sigs[sl.list[0].atom] = &FnSig{Name: sl.list[0].atom, Args: []string{dn}, Ret: sl.list[1].String()}
 						}
 						p.Sigs[cn] = sig
-						p.Sigs["is-"+cn] = &FnSig{Name: "(_ is " + cn + ")", Args: []string{dn}, Ret: "Bool"}
+						p.Sigs["is"+cn] = &FnSig{Name: "(_ is " + cn + ")", Args: []string{dn}, Ret: "Bool"}
 					}
 				}
 			}
